@@ -766,6 +766,8 @@ static const struct fam_s mfam[] = {
 	{"year-ends", "BYMONTH=1,12;BYMONTHDAY=1,31", 0},
 	{"1MO+20MO", "BYDAY=1MO,20MO", 0},
 	{"monthly-1+28", "BYMONTHDAY=1,28", 1},
+	/* no BY part at all: the day of month comes from DTSTART (the 1st) */
+	{"monthly-implicit", "", 2},
 };
 #define NMFAM	((int)(sizeof(mfam) / sizeof(*mfam)))
 
@@ -778,7 +780,7 @@ multi_sources(long *z, int max, int f, int inter)
 			const int y = 2020 + k / 12, m = 1 + k % 12;
 			if (n + 2 > max) break;
 			z[n++] = cvl_days(y, m, 1);
-			z[n++] = cvl_days(y, m, 28);
+			if (mfam[f].monthly == 1) z[n++] = cvl_days(y, m, 28);
 		}
 		return n;
 	}
@@ -815,10 +817,11 @@ shift_multi(const struct spec_s *sp, int f, int inter)
 		src[k].z = srcz[k];
 		src[k].nimg = images(src[k].img, sp, srcz[k]);
 	}
-	if (inter > 1) {
-		snprintf(lines, sizeof(lines), "DTSTART;VALUE=DATE:20200101\nRRULE:FREQ=%s;INTERVAL=%d;%s;SHIFT=%s\n", mfam[f].monthly ? "MONTHLY" : "YEARLY", inter, mfam[f].parts, sp->txt);
-	} else {
-		snprintf(lines, sizeof(lines), "DTSTART;VALUE=DATE:20200101\nRRULE:FREQ=%s;%s;SHIFT=%s\n", mfam[f].monthly ? "MONTHLY" : "YEARLY", mfam[f].parts, sp->txt);
+	{
+		char iv[24] = "";
+		if (inter > 1) snprintf(iv, sizeof(iv), ";INTERVAL=%d", inter);
+		snprintf(lines, sizeof(lines), "DTSTART;VALUE=DATE:20200101\nRRULE:FREQ=%s%s%s%s;SHIFT=%s\n", mfam[f].monthly ? "MONTHLY" : "YEARLY", iv,
+			 mfam[f].parts[0] ? ";" : "", mfam[f].parts, sp->txt);
 	}
 	vd_desc("%s", lines);
 	for (char *q = vd_sh->desc; *q; q++) if (*q == '\n') *q = ' ';
